@@ -638,12 +638,31 @@ func (t *fTruth) ridOf(r rules.Rule) int {
 	return id
 }
 
-// wire renders ((idx listID rid)…).
+// fPrepStatus is what preparePattern answers on the (private) truth object of
+// a rule: 0 = the pattern matches anything and nothing is stored, 1 = compiled,
+// 2 = regexp.Compile failed (invalid).  Rules without a pattern: 0.
+func fPrepStatus(r rules.Rule) int {
+	nr, ok := r.(*rules.NetworkRule)
+	if !ok || nr == nil {
+		return 0
+	}
+	switch _, st := nr.VerifPrepared(); st {
+	case 1:
+		return 1
+	case -1:
+		return 2
+	default:
+		return 0
+	}
+}
+
+// wire renders ((idx listID rid status)…); status is the lazy-compile class of
+// the rule (see fPrepStatus), which the Prog model stores in the rule's cell.
 func (t *fTruth) wire() string {
 	items := make([]string, len(t.order))
 	for i, idx := range t.order {
 		l, _ := filterlist.VerifRuleListIdx(idx)
-		items[i] = wlist(fmt.Sprint(idx), fmt.Sprint(l), fmt.Sprint(t.ridOf(t.rule[idx])))
+		items[i] = wlist(fmt.Sprint(idx), fmt.Sprint(l), fmt.Sprint(t.ridOf(t.rule[idx])), fmt.Sprint(fPrepStatus(t.rule[idx])))
 	}
 
 	return wlist(items...)
